@@ -302,7 +302,7 @@ make_world(int id, vh::Rng& rng, bool thorough)
   for (int k = 0; k < 2; ++k)
     {
       auto a = blank(w.anz, w.anxy, w.avz, w.avxy);
-      const int hot = rng.range(1, 3);
+      const int hot = rng.range(2, 5);
       for (int h = 0; h < hot; ++h)
         (*a)[rng.range(0, w.anz - 1)][rng.range(-(w.anxy / 2), w.anxy / 2)][rng.range(-(w.anxy / 2), w.anxy / 2)]
             = static_cast<float>(1 + rng.range(0, 7));
@@ -505,7 +505,9 @@ phase_a(const World& w, const Config& c, vh::Rng& rng, int n_est_ops, const stri
   // number of scatter points = voxels at/above threshold of the scatter-point image
   oracle(nsp == count_at_or_above(s->get_attenuation_image_for_scatter_points(), w.thrs[c.thr]),
          ctx + " number of scatter points differs from the number of voxels at/above the threshold");
-  oracle(nsp > 0 && total(out) > 0, ctx + " degenerate configuration (no scatter) — generator problem");
+  // (dense activity images only: a few hot voxels may legitimately see no scatter in a tiny scanner)
+  if (c.act < 2)
+    oracle(nsp > 0 && total(out) > 0, ctx + " degenerate configuration (no scatter) — generator problem");
   // (1) each output bin is the estimate for the bin's detector pair; non-negative
   {
     shared_ptr<const ProjDataInfo> pdi = s->get_template_proj_data_info_sptr();
@@ -868,6 +870,7 @@ run_history(const World& w, const std::vector<string>& lines, const string& kind
   Hist h;
   hist_new(h, w);
   string trace = "new";
+  bool set_up_succeeded_last = false; // set_up() returned Succeeded::yes and nothing was set since
   for (const string& line : lines)
     {
       trace += "; " + line;
@@ -881,7 +884,8 @@ run_history(const World& w, const std::vector<string>& lines, const string& kind
       if (t[0] == "process")
         {
           ans = hist_process(h);
-          const bool bad = ans == "ok stale" || ans == "crash" || ans == "ok nofresh" || ans == "nondeterministic";
+          const bool bad = ans == "ok stale" || ans == "crash" || ans == "ok nofresh" || ans == "nondeterministic"
+                           || (ans == "err" && set_up_succeeded_last);
           if (kind == "clean" || key.empty())
             {
               if (kind == "clean")
@@ -896,7 +900,13 @@ run_history(const World& w, const std::vector<string>& lines, const string& kind
             ++g_checks;
         }
       else
-        ans = hist_apply(h, t);
+        {
+          ans = hist_apply(h, t);
+          if (t[0] == "set_up")
+            set_up_succeeded_last = ans == "ok";
+          else if (t[0] != "nsp" && t[0] != "tmplinfo")
+            set_up_succeeded_last = false;
+        }
       emit(line, ans);
     }
 }
@@ -978,7 +988,7 @@ targeted_histories(const World& w)
   // --- known departures of the unchanged code (each replayed; see lean/StirVerif/C16/Props.lean for the witnesses)
   {
     std::vector<string> l = base_config(0, 0, 0, 0, 0, 0, 0);
-    append(l, { "set_up", "process", "set_exam 1", "set_up", "process" });
+    append(l, { "set_up", "process", "set_exam 1", "set_up", "process", "set_exam 2", "set_up", "process" });
     run_history(w, l, "dirty", "scatter-cache:exam-info-setter-keeps-detection-efficiency-no-scatter",
                 "set_exam_info after a computation does not reset detector_efficiency_no_scatter (only set_template_proj_data_info does): "
                 "the next estimate is normalised with the 511 keV efficiency of the OLD energy window");
@@ -1011,6 +1021,14 @@ targeted_histories(const World& w)
     run_history(w, l, "dirty", "scatter-setup:downsample-scanner-flag-makes-set-up-non-idempotent",
                 "with downsample_scanner_bool every set_up() down-samples the already down-sampled template again "
                 "(one more tangential position each time): after set_activity_image_sptr + set_up the output has a different size than that of a fresh object");
+  }
+  // every setter that must force a new set_up: process_data directly afterwards has to refuse
+  {
+    std::vector<string> l = base_config(0, 0, 0, 0, 0, 0, 0);
+    append(l, { "set_up", "process", "set_exam 1", "process", "set_up", "set_thr 0", "process", "set_up", "set_zoom 0", "process", "set_up",
+                "set_spimg 0", "process", "set_up", "set_tmpl 0", "process", "set_up", "set_att 0", "process", "set_up", "set_act 0", "process",
+                "set_up", "set_ds 0 2 8", "process", "set_up", "process" });
+    run_history(w, l, "dirty", "", "");
   }
   // order dependences outside the property's list of changes (threshold / zoom factors): recorded, not counted
   {
@@ -1082,12 +1100,14 @@ random_clean_history(const World& w, vh::Rng& rng, int length)
         l.push_back("set_act 5"); // inconsistent z-middle: set_up must refuse
       else if (r < 73)
         l.push_back("set_act -1");
-      else if (r < 84)
+      else if (r < 82)
         l.push_back("set_up");
-      else if (r < 88)
+      else if (r < 85)
         l.push_back("nsp");
-      else if (r < 90)
+      else if (r < 87)
         l.push_back("tmplinfo");
+      else if (r < 92)
+        l.push_back("process"); // without set_up: must refuse unless nothing was set since the last set_up
       else
         {
           l.push_back("set_up");
@@ -1125,10 +1145,12 @@ random_dirty_history(const World& w, vh::Rng& rng, int length)
         l.push_back("set_zoom " + num(rng.range(0, 1)));
       else if (r < 70)
         l.push_back(string(rng.coin() ? "set_use_cache " : "set_cache_enabled ") + num(rng.range(0, 1)));
-      else if (r < 82)
+      else if (r < 80)
         l.push_back("set_up");
-      else if (r < 86)
+      else if (r < 83)
         l.push_back("nsp");
+      else if (r < 90)
+        l.push_back("process");
       else
         {
           l.push_back("set_up");
@@ -1152,10 +1174,10 @@ main(int argc, char** argv)
   g_orc = std::fopen((string(argv[4]) + ".oracle").c_str(), "w");
   if (!g_ops || !g_out || !g_orc)
     return 2;
-  const int n_worlds = thorough ? 10 : 3;
-  const int n_clean = thorough ? 60 : 14;
-  const int n_dirty = thorough ? 20 : 5;
-  const int len = thorough ? 30 : 16;
+  const int n_worlds = thorough ? 12 : 4;
+  const int n_clean = thorough ? 80 : 24;
+  const int n_dirty = thorough ? 30 : 8;
+  const int len = thorough ? 30 : 18;
   for (int wi = 0; wi < n_worlds; ++wi)
     {
       const World w = make_world(wi, rng, thorough);
